@@ -322,7 +322,7 @@ def h4(case):
 
 
 def run_case(case, tier):
-    ctx = explore.explore(make_harness(case, tier), max_paths=40000, time_budget_s=500,
+    ctx = explore.explore(make_harness(case, tier), max_paths=(40000 if tier == 'quick' else 1600000), time_budget_s=(500 if tier == 'quick' else 3600),
                           decide_timeout_ms=30000 if tier == 'quick' else 90000)
     return driver.result_from_ctx(ctx)
 
